@@ -144,6 +144,11 @@ pub fn check_case(c: &Case, rec: &mut Recorder, property: &str) -> Result<(), St
         text.splice(0..0, [0xef, 0xbb, 0xbf]);
         rec.class("yaml_source_with_utf8_bom");
     }
+    // and of a JSON text: leading blank space (detection must still say JSON)
+    if c.a == Fmt::Json && c.style.tape.first().map_or(false, |b| b % 4 == 1) {
+        text.splice(0..0, *b" \n\t ");
+        rec.class("json_source_with_leading_whitespace");
+    }
     match read_any(&text, c.a) {
         Ok(d) if d.len() == 1 && d[0] == model => {}
         _ => {
